@@ -323,3 +323,170 @@ N('c03-call-routine-local', 'C03', PARSE,
   """        routine_name = routine.name
         self._add_instruction(OpCode.JSR, routine_name)
         if bracketed:""")
+
+# ------------------------------------------------------------------ C04
+B('c04-preloop-after-mark', 'C04', 'R04.a', LOOP,
+  """        if not self._pre_loop(code_gen, context_stack):
+            return False
+        loop_top = code_gen.mark()""",
+  """        loop_top = code_gen.mark()
+        if not self._pre_loop(code_gen, context_stack):
+            return False""")
+B('c04-test-before-mark', 'C04', 'R04.a', LOOP,
+  """        loop_top = code_gen.mark()
+        if not self._loop_test(code_gen):
+            return False
+        exit_loop_marker = code_gen.if_true_start()""",
+  """        if not self._loop_test(code_gen):
+            return False
+        loop_top = code_gen.mark()
+        exit_loop_marker = code_gen.if_true_start()""")
+B('c04-post-after-jump', 'C04', 'R04.a', LOOP,
+  """        if not (self._loop_body(code_gen) and self._loop_post(code_gen)):
+            return False
+        code_gen.jump_back(loop_top)""",
+  """        if not self._loop_body(code_gen):
+            return False
+        code_gen.jump_back(loop_top)
+        if not self._loop_post(code_gen):
+            return False""")
+B('c04-fix-after-endloop', 'C04', 'R04.b', LOOP,
+  """        context_stack.fix_break_addrs(code_gen)
+        code_gen.add_instruction(OpCode.END_LOOP)""",
+  """        code_gen.add_instruction(OpCode.END_LOOP)
+        context_stack.fix_break_addrs(code_gen)""")
+B('c04-fix-before-ifend', 'C04', 'R04.b', LOOP,
+  """        code_gen.jump_back(loop_top)
+        code_gen.if_end(exit_loop_marker)
+        context_stack.fix_break_addrs(code_gen)""",
+  """        context_stack.fix_break_addrs(code_gen)
+        code_gen.jump_back(loop_top)
+        code_gen.if_end(exit_loop_marker)""")
+B('c04-break-outermost', 'C04', 'R04.b', CONTEXT,
+  "        return self._loop_stack[-1].break_list", "        return self._loop_stack[0].break_list")
+B('c04-break-unregistered', 'C04', 'R04.b', PARSE,
+  "        self._context.add_break(inst)\n", "")
+B('c04-push-unit-mode-raw', 'C04', 'R04.c', VMMATH,
+  "        if isinstance(srce, Number) or srce is Operand.NULL:",
+  "        if isinstance(srce, Number) or srce in (Register.UNIT_MODE, Operand.NULL):")
+B('c04-next-bisect-left', 'C04', 'R04.e', SORTED,
+  "        pos = bisect.bisect(self, value)\n", "        pos = bisect.bisect_left(self, value)\n")
+B('c04-prev-bisect-right', 'C04', 'R04.e', SORTED,
+  """        pos = bisect.bisect_left(self, value)
+        return None if pos == 0 else self[pos - 1]""",
+  """        pos = bisect.bisect_right(self, value)
+        return None if pos == 0 else self[pos - 1]""")
+B('c04-iter-members-wrong-var', 'C04', 'R04.e', CODEGEN,
+  "            (OpCode.DNEXTM, LoopVar.FIRST, LoopVar.CURRENT)",
+  "            (OpCode.DNEXTM, LoopVar.FIRST, LoopVar.FIRST)")
+B('c04-iter-sets-wrong-operand', 'C04', 'R04.e', CODEGEN,
+  """        self._code.extend(list(code))
+        self.add_list(
+            (OpCode.MOVEQ, operand, Register.OPERAND),
+            (OpCode.DNEXT, LoopVar.CURRENT)""",
+  """        self._code.extend(list(code))
+        self.add_list(
+            (OpCode.MOVEQ, Operand.LIGHT, Register.OPERAND),
+            (OpCode.DNEXT, LoopVar.CURRENT)""")
+B('c04-test-gte-zero', 'C04', 'R04.f', LOOP,
+  "            code_gen.test_op(Operator.GT, LoopVar.COUNTER, 0)",
+  "            code_gen.test_op(Operator.GTE, LoopVar.COUNTER, 0)")
+B('c04-counter-minus-two', 'C04', 'R04.f', LOOP,
+  "        code_gen.minus_equals(LoopVar.COUNTER, 1)", "        code_gen.minus_equals(LoopVar.COUNTER, 2)")
+B('c04-index-not-advanced', 'C04', 'R04.f', LOOP,
+  """        if self._index_var is not None:
+            code_gen.plus_equals(self._index_var, LoopVar.INCR)
+""", "")
+N('c04-gte-one', 'C04', LOOP,
+  "            code_gen.test_op(Operator.GT, LoopVar.COUNTER, 0)",
+  "            code_gen.test_op(Operator.GTE, LoopVar.COUNTER, 1)")
+N('c04-bisect-right-name', 'C04', SORTED,
+  "        pos = bisect.bisect(self, value)\n", "        pos = bisect.bisect_right(self, value)\n")
+N('c04-repeat-split-cond', 'C04', LOOP,
+  """        if not (self._loop_body(code_gen) and self._loop_post(code_gen)):
+            return False""",
+  """        if not self._loop_body(code_gen):
+            return False
+        if not self._loop_post(code_gen):
+            return False""")
+
+# ------------------------------------------------------------------ C05
+B('c05-no-end-loop', 'C05', 'R05.a', LOOP,
+  "        code_gen.add_instruction(OpCode.END_LOOP)\n", "")
+B('c05-exit-loop-skipped', 'C05', 'R05.a', LOOP,
+  "        context_stack.exit_loop()\n        return True", "        return True")
+B('c05-routine-no-end', 'C05', 'R05.a', PARSE,
+  "        self._add_instruction(OpCode.END, name)\n", "")
+B('c05-matrix-no-end', 'C05', 'R05.a', MPARSER,
+  "        self.code_gen.add_instruction(OpCode.END, Operand.MATRIX)\n", "")
+B('c05-exit-matrix-skipped', 'C05', 'R05.a', MPARSER,
+  "        self.context.exit_matrix()\n", "")
+B('c05-if-no-end', 'C05', 'R05.b', PARSE,
+  "        self._code_gen.if_end(marker)\n        return True", "        return True")
+B('c05-if-end-only-with-else', 'C05', 'R05.b', PARSE,
+  """            if not self.command_seq():
+                return False
+        self._code_gen.if_end(marker)
+        return True""",
+  """            if not self.command_seq():
+                return False
+            self._code_gen.if_end(marker)
+        return True""")
+B('c05-iter-no-ifend', 'C05', 'R05.b', CODEGEN,
+  """            (OpCode.DNEXTM, LoopVar.FIRST, LoopVar.CURRENT)
+        )
+        self.jump_back(loop_marker)
+        self.if_end(if_marker)""",
+  """            (OpCode.DNEXTM, LoopVar.FIRST, LoopVar.CURRENT)
+        )
+        self.jump_back(loop_marker)""")
+B('c05-jsr-unchecked', 'C05', 'R05.c', PARSE,
+  """        if routine.undefined:
+            return self.token_error('Unknown name: "{}"')
+
+        self._add_instruction(OpCode.CTX)""",
+  """        self._add_instruction(OpCode.CTX)""")
+B('c05-loader-reverse', 'C05', 'R05.e', LOADER,
+  "                    self._main_segment.append(inst)", "                    self._main_segment.insert(0, inst)")
+B('c05-ifelse-plus-one', 'C05', 'R05.f', CODEGEN,
+  "marker.jump.param1 = self.current_offset - marker.offset + 2",
+  "marker.jump.param1 = self.current_offset - marker.offset + 1")
+B('c05-ifend-plus-two', 'C05', 'R05.f', CODEGEN,
+  "        marker.jump.param1 = self.current_offset - marker.offset + 1",
+  "        marker.jump.param1 = self.current_offset - marker.offset + 2")
+B('c05-ifelse-marker-stale', 'C05', 'R05.f', CODEGEN,
+  "        marker.jump = inst\n        marker.offset = self.current_offset",
+  "        marker.jump = inst")
+B('c05-jump-back-off-by-one', 'C05', 'R05.f', CODEGEN,
+  "        offset = marker.offset - self.current_offset\n",
+  "        offset = marker.offset - self.current_offset - 1\n")
+B('c05-iftrue-offset-before', 'C05', 'R05.f', CODEGEN,
+  """        inst = self.add_instruction(OpCode.JUMP, JumpCondition.IF_FALSE)
+        return _JumpMarker(inst, self.current_offset)""",
+  """        here = self.current_offset
+        inst = self.add_instruction(OpCode.JUMP, JumpCondition.IF_FALSE)
+        return _JumpMarker(inst, here)""")
+B('c05-break-fix-off', 'C05', 'R05.f', CONTEXT,
+  "            inst.param1 = offset - inst.param1", "            inst.param1 = offset - inst.param1 + 1")
+B('c05-jump-absolute', 'C05', 'R05.f', MACHINE,
+  "                self._reg.pc += inst.param1", "                self._reg.pc = inst.param1")
+B('c05-iffalse-table', 'C05', 'R05.f', MACHINE,
+  "JumpCondition.IF_FALSE: {True: False, False: True},",
+  "JumpCondition.IF_FALSE: {True: True, False: False},")
+B('c05-routine-address-off', 'C05', 'R05.g', LOADER,
+  "        new_routine.set_address(len(self._routine_segment) + 1)",
+  "        new_routine.set_address(len(self._routine_segment))")
+B('c05-prologue-off', 'C05', 'R05.g', LOADER,
+  "OpCode.JUMP, JumpCondition.ALWAYS, len(self._routine_segment) + 1)]",
+  "OpCode.JUMP, JumpCondition.ALWAYS, len(self._routine_segment))]")
+B('c05-jsr-return-same', 'C05', 'R05.g', MACHINE,
+  "        self._call_stack.set_return(self._reg.pc + 1)", "        self._call_stack.set_return(self._reg.pc)")
+N('c05-ifelse-rewritten', 'C05', CODEGEN,
+  "marker.jump.param1 = self.current_offset - marker.offset + 2",
+  "marker.jump.param1 = 1 + (self.current_offset + 1) - marker.offset")
+N('c05-ifend-local', 'C05', CODEGEN,
+  "        marker.jump.param1 = self.current_offset - marker.offset + 1",
+  "        here = self.current_offset\n        marker.jump.param1 = here + 1 - marker.offset")
+N('c05-address-after-local', 'C05', LOADER,
+  "        new_routine.set_address(len(self._routine_segment) + 1)",
+  "        new_routine.set_address(1 + len(self._routine_segment))")
